@@ -28,10 +28,10 @@ try:  # the six flags of the Text model and the rstrip_end flag belong to proper
     from props.c05 import RSTRIP_END_CHARS
 except Exception:  # pragma: no cover
     TEXT_FLAGS = "000000"
-    RSTRIP_END_CHARS = 1  # Text.rstrip_end compares the character count with the cell width (pending_fixes/C08-rstrip-end-counts-cells.diff)
+    RSTRIP_END_CHARS = 1  # fallback only (props.c05 not importable): 1 = rich 9.10.0 as found, Text.rstrip_end compares the character count with the cell width; /repo now has the repair (fix f5f2be9 = pending_fixes/C08-rstrip-end-counts-cells.diff) and props.c05 holds 0
 JUSTIFY_NEG = 0  # Lines.justify center/right: pad_left(negative) when the line stays wider than the width (overflow "ignore"); repaired by /repo commit 90b2e96
 FLAGS = TEXT_FLAGS + str(JUSTIFY_NEG) + str(RSTRIP_END_CHARS)
-# development aid only (validate pending_fixes against a patched checkout): VERIF_C02_FLAGS=00000000 VERIF_REPO=<worktree>
+# development aid only (was used to validate the pending_fixes diffs against a patched checkout before they became fix: commits): VERIF_C02_FLAGS=00000000 VERIF_REPO=<worktree>
 FLAGS = os.environ.get("VERIF_C02_FLAGS", FLAGS)
 
 ALPHA = ["a", "b", " ", "あ", "̀", "\t", "\n"]
@@ -558,9 +558,10 @@ MANIFEST = {
         "normal form 'null style erased, adjacent repetitions merged'); wrap_fold_keeps_nonspace_notabs / "
         "wrap_fold_keeps_styles_exact (sharper comparisons for tab-free texts); wrapLine_style_preserved (every overflow mode, no_wrap on or off, justify other than full: each produced "
         "line is blanks + a prefix of its piece of the styled string, every character with exactly its effective style, + "
-        "blanks/ellipsis).  Two genuine defects of rich 9.10.0 (span order after divide: found by C05, reproduced through "
-        "wrap; negative pad_left in Lines.justify: found here, /repo commit 90b2e96) are carried as variant flags with "
-        "machine-checked witnesses (old_wrap_reorders_styles, old_justify_negative_pad).  The model is tied to the real "
+        "blanks/ellipsis).  Three genuine defects of rich 9.10.0 as found (span order after divide: found by C05, reproduced through "
+        "wrap, fix aad03fe; negative pad_left in Lines.justify: found here, fix 90b2e96; rstrip_end counting characters: found by C08, "
+        "fix f5f2be9), all repaired in /repo, are carried as variant flags with machine-checked witnesses (old_wrap_reorders_styles, "
+        "old_justify_negative_pad, old_wrap_ellipsis_drops_fitting_char).  Every flag constant holds the repaired value 0.  The model is tied to the real "
         "code on every run by differential execution (complete line state + rendering through the real Text.render) and "
         "the four statements are evaluated directly on rich's output.  wrap_history_pure: in the model a history of wrap "
         "calls on one object leaves the object as it was and answers each call as a fresh copy would (by construction: "
@@ -578,8 +579,8 @@ MANIFEST = {
         "wrapLine_style_preserved_full for justify full: the non-whitespace characters shown are a prefix of the piece's, "
         "with their styles modulo the null style, between ellipses) are per paragraph after tab expansion; all theorems "
         "hold for both forms of Text.rstrip_end (characters vs cells, flag RSTRIP_END_CHARS of props.c05); what the C08 "
-        "repair adds is fold_lines_fit_before_crop (+ witness old_wrap_ellipsis_drops_fitting_char: today 'ああ b' at width "
-        "4 with overflow ellipsis yields 'あ …'); (3) styles are opaque names: 'carries exactly the style' is "
+        "repair (fix f5f2be9, in /repo now; RSTRIP_END_CHARS = 0) adds is fold_lines_fit_before_crop (+ witness old_wrap_ellipsis_drops_fitting_char: in "
+        "rich 9.10.0 as found 'ああ b' at width 4 with overflow ellipsis yielded 'あ …'); (3) styles are opaque names: 'carries exactly the style' is "
         "equality of the list of names applied in order (free monoid), modulo the null style where full justification is "
         "involved; in the direct evaluation equality is up to the laws every rich Style satisfies ('' neutral, x+x = x, "
         "x+y+x = y+x) because tab expansion and full justification re-apply the base style; (4) the whitespace class is "
